@@ -373,6 +373,18 @@ class P:
                 self.expect('}')
             self.expect(')')
             return ('b', '(match peek_at s %s with Some k_%s => %s | None => false end)' % (d, var, e))
+        helpers = getattr(self, 'helpers', {})
+        if name in helpers and name not in getattr(self, 'inlining', ()):
+            # a private `fn name(&self) -> bool` next to can_emit (validation.rs / utils.rs) that is not one of the modelled
+            # primitives: its body is read with the same vocabulary and substituted (no recursion)
+            self.expect('(')
+            self.expect(')')
+            sub = P(tokenize(helpers[name]), self.rmap)
+            sub.helpers, sub.inlining = helpers, tuple(getattr(self, 'inlining', ())) + (name,)
+            e = sub.block({})
+            if sub.peek()[0] != 'eof':
+                raise TranslateError('helper %s: statements outside the modelled vocabulary' % name)
+            return ('b', e)
         raise TranslateError('unsupported self.%s in can_emit' % name)
 
     def block(self, env):
@@ -475,7 +487,19 @@ def translate_can_emit(repo, names):
     if not m:
         raise TranslateError('can_emit: `match opcode {` not found')
     pre = body[:m.start()]
-    env0 = P(tokenize(pre), rust_to_cp(names)).bindings()
+    # parameterless boolean helper methods defined next to can_emit (other than the modelled primitives of utils.rs)
+    helpers = {}
+    known = {'has_mark', 'is_list_at_mark', 'is_dict_at_mark', 'is_set_at_mark', 'is_callable_above_mark'}
+    for fsrc in (src, open(os.path.join(repo, 'src/generator/utils.rs')).read()):
+        for hm in re.finditer(r'\bfn\s+(\w+)\s*\(\s*&self\s*\)\s*->\s*bool\s*\{', fsrc):
+            if hm.group(1) not in known:
+                try:
+                    helpers[hm.group(1)] = fn_body(fsrc, hm.group(1))
+                except TranslateError:
+                    pass
+    p0 = P(tokenize(pre), rust_to_cp(names))
+    p0.helpers = helpers
+    env0 = p0.bindings()
     inner = body[m.end():]
     depth, j = 1, 0
     while j < len(inner):
@@ -491,7 +515,9 @@ def translate_can_emit(repo, names):
         j += 1
     if re.sub(r'//[^\n]*|\s+', '', inner[j + 1:]):
         raise TranslateError('can_emit: unexpected statements after the match')
-    arms = P(tokenize(inner[:j]), rust_to_cp(names)).arms(env0)
+    pa = P(tokenize(inner[:j]), rust_to_cp(names))
+    pa.helpers = helpers
+    arms = pa.arms(env0)
     lines = ["(* GENERATED on every run by tools/gen_src.py from /repo/src/generator/validation.rs *)",
              "From Coq Require Import List NArith Bool Arith.", "Import ListNotations.",
              "From PF Require Import Opcodes Config Sim.", "",
